@@ -1,6 +1,6 @@
 """Per-property configuration of the checks (which Verus units and which Kani harness groups decide it)."""
 
-T1 = 'T1 orx-concurrent-iter 1.30.0 protocol (atomic pulls returning disjoint consecutive index ranges in increasing order; has_more()=Yes(r) => 1<=r<=initial len; after skip_to_end every pull is None): assumed, dependency code not verified'
+T1 = 'T1 orx-concurrent-iter 1.30.0 protocol (its sequential part is checked against the real ConIterOfVec / ConIterOfIter by the k_dep_* harnesses; atomicity under real concurrency is assumed) (atomic pulls returning disjoint consecutive index ranges in increasing order; has_more()=Yes(r) => 1<=r<=initial len; after skip_to_end every pull is None): assumed, dependency code not verified'
 T2 = 'T2 orx-concurrent-ordered-bag set_value/set_values/into_inner contract: assumed; executed for real (sequentially) in Kani harnesses'
 T3 = 'T3 orx-priority-queue BinaryHeap push/pop_node/push_then_pop is a min-queue w.r.t. a strict total order on keys: assumed (external_body specs in unit merge)'
 T4 = 'T4 Vec / SplitVec / FixedVec / PinnedVec::push / SplitVec::append preserve element sequences: vstd specs for Vec, assumed trait contract for PinnedVec; executed for real in Kani harnesses'
@@ -59,8 +59,8 @@ PROPS = {
     'C05': dict(
         level='model_checking', verus_units=[],
         kani=True,
-        kani_select=dict(quick=r'^k_task_\w+_n3c1_m101|^k_task_flatmap_fil_(col|cnt|red|find)_n2c1|^k_api_par2_(map_fil_count|fil_for_each|map_fil_reduce|map_fil_find|fil_fil_find|map_fil_collect_vec)|^k_api_seq_(flat_fil_fil|map_fil_fil|fmap_fil_fil|fil_fil|fil_map|map_fil_map)_count',
-                         thorough=r'^k_task_|^k_glue_|^k_api_par2_|^k_api_seq_\w+_count'),
+        kani_select=dict(quick=r'^k_dep_|^k_task_\w+_n3c1_m101|^k_task_flatmap_fil_(col|cnt|red|find)_n2c1|^k_api_par2_(map_fil_count|fil_for_each|map_fil_reduce|map_fil_find|fil_fil_find|map_fil_collect_vec)|^k_api_seq_(flat_fil_fil|map_fil_fil|fmap_fil_fil|fil_fil|fil_map|map_fil_map)_count',
+                         thorough=r'^k_dep_|^k_task_|^k_glue_|^k_api_par2_|^k_api_seq_\w+_count'),
         trusted_base=[T1, T5, RSCHED, STUBS, MODEL],
         assumptions=[TASK_BOUND, 'clause 2 of the property (a by-value iterator source is advanced by one thread at a time) is the CAS handle protocol inside orx-concurrent-iter ConIterOfIter: no contract on orx-parallel functions can express or decide it; it is assumed (T1), NOT claimed by this check'],
         explanation='Kani (bounded): call-log harnesses. Every user closure logs (stage, source position); for must-visit terminals the call multiset equals the std chain (each stage exactly once per element reaching it, nothing for elements delivered to other workers); short-circuit terminals call each closure at most once per element. Covers every kernel task and the closure compositions of src/par/*.rs. ' + MC_TEXT,
@@ -103,8 +103,8 @@ PROPS = {
     'C10': dict(
         level='other', verus_units=['core'],
         kani=True,
-        kani_select=dict(quick=r'^k_task_\w+_find_n(3c1|3c2|2c1)|^k_glue_map_fil_find_|^k_api_seq_(map_fil_find|fil_first|map_any)',
-                         thorough=r'^k_task_\w+_find_|^k_glue_\w+_find_|^k_api_seq_\w+_(find|first|any|all)_'),
+        kani_select=dict(quick=r'^k_dep_|^k_task_\w+_find_n(3c1|3c2|2c1)|^k_glue_map_fil_find_|^k_api_seq_(map_fil_find|fil_first|map_any)',
+                         thorough=r'^k_dep_|^k_task_\w+_find_|^k_glue_\w+_find_|^k_api_seq_\w+_(find|first|any|all)_'),
         trusted_base=[T1, T5, AHW, A64, RSCHED, STUBS, MODEL],
         assumptions=[TASK_BOUND, 'liveness under fairness (termination of the workers on an endless source) is not expressible as a contract; decided instead: the safety decomposition below, which implies the property together with T1 (after skip_to_end every pull returns None)'],
         explanation='Safety decomposition of a liveness property. Verus (unbounded): the spawn loops terminate (decreases) after at most max_num_threads spawns, and do_spawn / next_chunk_size refuse as soon as has_more() is No. Kani (bounded): a worker that finds a match has called skip_to_end and performs no further pull, elements of its later chunks are never evaluated, a worker that sees None returns (constant = 1 chunk per worker); in sequential mode the call sequence stops at the first match (equals std find).',
